@@ -8,6 +8,7 @@ import (
 	"io"
 	"runtime"
 	"sort"
+	"strings"
 	"sync"
 	"testing"
 	"time"
@@ -324,5 +325,143 @@ func TestC05(t *testing.T) {
 		Rule: "rapid scenarios: N concurrent writers (2..24, occasionally up to 300) on ONE connection, all released together by a barrier, each writing 1..20 SearchResultEntry frames with payload sizes from {0,1,20,200,1000,4050..4100 (bufio boundary),5000,8192,16384,40000,70000} then a SearchDone; transport plain/TLS/StartTLS; client reads eagerly, late, or slowly (back-pressure); GOMAXPROCS 1/2/4/16; or 'burst mode': 16..256 writers with 0..2 tiny frames each, the burst repeated 2..6 times on the same connection; oracle = strict incremental parse of the received stream + multiset equality with the writes that returned nil + per-writer order (a frame left behind in a buffer at the end of a burst is a missing frame); non-trivial = >= 2 writers, (>= 1 frame > 4096 B or a multi-round burst) and frames of different writers measurably interleaved in the stream; distinct by hash of the scenario",
 		Gen:  genC05(24),
 		Exec: c05Exec,
+	}.Run(t)
+}
+
+// ---- concurrent writers when writes start failing (WithWriteTimeout) --------------
+
+type c05WTCase struct {
+	Writers   int `json:"writers"`
+	Frames    int `json:"frames"`
+	FrameSize int `json:"frame_size"`
+	TimeoutMs int `json:"timeout_ms"`
+	StallMs   int `json:"stall_ms"` // the client reads nothing for this long
+}
+
+// c05WTExec: the server has a write timeout; the client stops reading long
+// enough for it to strike while N handlers write. Whatever Write returned nil
+// for must arrive whole and exactly once; a write that FAILED may leave a
+// partial frame, but only at the very end of the stream - never followed by
+// another frame.
+func c05WTExec(c c05WTCase, st *lab.Stats) *lab.Fail {
+	var mu sync.Mutex
+	okWrites := map[string]int{}
+	failed := 0
+	var wg sync.WaitGroup
+	wg.Add(c.Writers)
+	h := func(w *gldap.ResponseWriter, r *gldap.Request) {
+		defer wg.Done()
+		_, id, _ := gldap.VerifMessageInfo(r)
+		for seq := 0; seq < c.Frames; seq++ {
+			p := c05Payload(int(id), seq, c.FrameSize)
+			e := r.NewSearchResponseEntry(fmt.Sprintf("w%d-%d", id, seq))
+			e.AddAttribute("p", []string{string(p)})
+			err := w.Write(e)
+			mu.Lock()
+			if err == nil {
+				okWrites[fmt.Sprintf("%d/%d", id, seq)]++
+			} else {
+				failed++
+			}
+			mu.Unlock()
+		}
+	}
+	mux, _ := gldap.NewMux()
+	_ = mux.Search(h)
+	srv, err := lab.StartServer(mux, lab.ServerOpts{WriteTimeout: time.Duration(c.TimeoutMs) * time.Millisecond})
+	if err != nil {
+		st.Inconclusive(err.Error())
+		return nil
+	}
+	defer func() { _ = srv.Stop(15 * time.Second) }()
+	cl, err := lab.Dial(srv.Addr)
+	if err != nil {
+		st.Inconclusive(err.Error())
+		return nil
+	}
+	defer cl.Abort()
+	filter, _ := compileFilter("(objectClass=*)")
+	var buf []byte
+	for i := 0; i < c.Writers; i++ {
+		buf = append(buf, ReqSpec{Req: wire.Req{Kind: "search", MsgID: int64(i + 1), DN: []byte("dc=x"), Scope: 2, Filter: filter}}.Bytes()...)
+	}
+	_ = cl.Send(buf)
+	time.Sleep(time.Duration(c.StallMs) * time.Millisecond)
+	got := map[string]int{}
+	nframes := 0
+	tail := ""
+	for {
+		m, err := cl.Next(1500 * time.Millisecond)
+		if err == nil {
+			e, perr := m.Entry()
+			if perr != nil {
+				return lab.Failf("torn-frame", "malformed frame in the stream after %d whole frames (write timeout %d ms, client stalled %d ms): %v", nframes, c.TimeoutMs, c.StallMs, perr)
+			}
+			var wi, seq int
+			if _, serr := fmt.Sscanf(string(e.DN), "w%d-%d", &wi, &seq); serr != nil || int64(wi) != m.ID || len(e.Attrs) != 1 || len(e.Attrs[0].Vals) != 1 ||
+				!bytes.Equal(e.Attrs[0].Vals[0], c05Payload(wi, seq, c.FrameSize)) {
+				return lab.Failf("torn-frame", "frame %d (message ID %d, DN %q) is not what any writer wrote", nframes, m.ID, truncate(string(e.DN)))
+			}
+			got[fmt.Sprintf("%d/%d", wi, seq)]++
+			nframes++
+			continue
+		}
+		var fe *lab.FrameError
+		if errors.As(err, &fe) {
+			tail = fe.Error()
+		}
+		break
+	}
+	// handlers are done by now (their writes either went through or failed)
+	done := make(chan struct{})
+	go func() { wg.Wait(); close(done) }()
+	select {
+	case <-done:
+	case <-time.After(10 * time.Second):
+		st.Inconclusive("handlers still writing 10 s after the stream went idle")
+		return nil
+	}
+	mu.Lock()
+	defer mu.Unlock()
+	st.Case(failed > 0 && c.Writers >= 2, lab.JSONKey(c), fmt.Sprintf("failed-writes>0=%v", failed > 0), fmt.Sprintf("writers=%d", c.Writers))
+	st.Sample(c)
+	if tail != "" && failed == 0 {
+		return lab.Failf("torn-frame", "the stream ends inside a frame although every Write returned nil: %s", tail)
+	}
+	if tail != "" && !strings.Contains(tail, "pending bytes") && !strings.Contains(tail, "ended inside a frame") {
+		return lab.Failf("torn-frame", "the byte stream is not a concatenation of whole LDAPMessages (a failed write may leave a partial frame only at the very end): %s", tail)
+	}
+	for k, v := range okWrites {
+		if got[k] != v {
+			return lab.Failf("lost-frame", "frame %s: Write returned nil %d time(s) but it was received %d time(s) (%d writes failed after the write timeout)", k, v, got[k], failed)
+		}
+	}
+	for k, v := range got {
+		if okWrites[k] < v {
+			return lab.Failf("duplicated-frame", "frame %s was received %d time(s) but Write returned nil for it %d time(s)", k, v, okWrites[k])
+		}
+	}
+	return nil
+}
+
+func TestC05WriteTimeout(t *testing.T) {
+	lab.Prop[c05WTCase]{
+		ID: "C05", Part: "write-timeout",
+		Rule: "rapid: 2..8 writers x enough frames of 70..400 KB to exceed the socket buffers (>= 16 MB in total) on one connection of a server configured WithWriteTimeout(100..300 ms); the client reads nothing for 2-3x that time, so writes start to fail while others are queued; oracle = every frame for which Write returned nil arrives whole and exactly once, the stream is whole frames possibly followed by ONE partial frame at its very end (and only if some Write failed); non-trivial = >= 2 writers and at least one failed Write; distinct by hash",
+		Gen: func(t *rapid.T) c05WTCase {
+			c := c05WTCase{
+				Writers:   rapid.IntRange(2, 8).Draw(t, "writers"),
+				Frames:    rapid.IntRange(3, 12).Draw(t, "frames"),
+				FrameSize: rapid.SampledFrom([]int{70000, 200000, 400000}).Draw(t, "framesize"),
+				TimeoutMs: rapid.SampledFrom([]int{100, 200, 300}).Draw(t, "timeout"),
+			}
+			c.StallMs = c.TimeoutMs * rapid.IntRange(2, 3).Draw(t, "stallx")
+			// enough data to fill the socket buffers (so that writers really block until the deadline)
+			for c.Writers*c.Frames*c.FrameSize < 16<<20 {
+				c.Frames++
+			}
+			return c
+		},
+		Exec: c05WTExec,
 	}.Run(t)
 }
